@@ -3,6 +3,8 @@ package props
 import (
 	"fmt"
 	"html/template"
+
+	"github.com/gobuffalo/plush/v5/helpers/hctx"
 	"strings"
 
 	"github.com/gobuffalo/plush/v5"
@@ -312,6 +314,58 @@ func c02HeaderText(b *core.B) {
 	}
 }
 
+// c02ClosedStore is a context of the caller's whose lookup of one name panics.
+type c02ClosedStore struct{ *plush.Context }
+
+func (s c02ClosedStore) Value(key interface{}) interface{} {
+	if key == "session" {
+		panic("store is closed")
+	}
+	return s.Context.Value(key)
+}
+
+func (s c02ClosedStore) Has(key string) bool {
+	if key == "session" {
+		panic("store is closed")
+	}
+	return s.Context.Has(key)
+}
+
+func (s c02ClosedStore) New() hctx.Context {
+	return c02ClosedStore{Context: s.Context.New().(*plush.Context)}
+}
+
+// c02AbnormalEnd runs one render that writes some text and then ends badly: with an error,
+// with a panic of the caller's own context that the caller recovers, inside a helper block,
+// inside a partial. Whatever the next render produces is its own text and nothing else.
+func c02AbnormalEnd(kind int) string {
+	names := []string{"error-after-text", "panic-of-the-callers-context", "error-in-a-helper-block", "panic-in-a-partial", "parse-error-after-text"}
+	kind %= len(names)
+	func() {
+		defer func() { _ = recover() }()
+		switch kind {
+		case 0:
+			_, _ = plush.Render("LEFTOVER0 <%= 1 %> and <%= nosuchname %> tail", plush.NewContext())
+		case 1:
+			_, _ = plush.Render("LEFTOVER1 <%= 2 %> <%= session %> tail", c02ClosedStore{Context: plush.NewContext()})
+		case 2:
+			ctx := plush.NewContext()
+			ctx.Set("wrap", func(h plush.HelperContext) (template.HTML, error) {
+				s, err := h.Block()
+				return template.HTML(s), err
+			})
+			_, _ = plush.Render("LEFTOVER2 <%= wrap() { %>inner <%= 3 %><%= nosuchname %><% } %> tail", ctx)
+		case 3:
+			ctx := c02ClosedStore{Context: plush.NewContext()}
+			ctx.Context.Set("partialFeeder", func(string) (string, error) { return "PARTIAL <%= 4 %><%= session %>", nil })
+			_, _ = plush.Render("LEFTOVER3 <%= partial(\"p\") %> tail", ctx)
+		case 4:
+			_, _ = plush.Render("LEFTOVER4 <%= 5 %> <% if ( %> tail", plush.NewContext())
+		}
+	}()
+	return names[kind]
+}
+
 func c02Run(b *core.B) {
 	if b.Batch == 0 && b.Begin("many pieces: 120000 iterations of text and values") {
 		// the output is the concatenation of all of it, however much it is
@@ -390,6 +444,10 @@ func c02Run(b *core.B) {
 		src, exp := g.list(2, false)
 		if !b.Begin(src) {
 			continue
+		}
+		if i%61 == 7 {
+			// the render before this one ended badly
+			g.classes["after:"+c02AbnormalEnd(i/61)] = true
 		}
 		res := render(b, src, c02Ctx())
 		if res.Pan == nil {
